@@ -647,7 +647,8 @@ class LogWorld:
 
     def __init__(self, fs, rule, fields=None, share_init=None, tick=0.125, logger_kw=None,
                  base="log", tag="x", share_name="mc.x", more_logs=()):
-        """more_logs: further (base, rule, fields) logs of the same share in the same logger."""
+        """more_logs: further logs in the same logger, (base, rule, fields) on the same share or
+        (base, rule, fields, share_name, share_init) on another share (created on demand)."""
         from ioflo.base import housing, logging as iologging, globaling
         from ioflo.aid.odicting import odict
         housing.House.Clear()
@@ -672,9 +673,16 @@ class LogWorld:
         self.log.addLoggee(tag=tag, loggee=share_name, fields=list(fields) if fields else None)
         self.logger.addLog(self.log)
         self.logs = [self.log]
-        for base2, rule2, fields2 in more_logs:
+        self.shares = {share_name: self.share}
+        for spec in more_logs:
+            base2, rule2, fields2 = spec[:3]
+            sname = spec[3] if len(spec) > 3 else share_name
+            if sname not in self.shares:
+                self.shares[sname] = self.store.create(sname)
+                if len(spec) > 4 and spec[4]:
+                    self.shares[sname].create(odict(spec[4]))
             log2 = iologging.Log(name=base2, store=self.store, kind="text", rule=rule2)
-            log2.addLoggee(tag=tag, loggee=share_name, fields=list(fields2) if fields2 else None)
+            log2.addLoggee(tag=tag, loggee=sname, fields=list(fields2) if fields2 else None)
             self.logger.addLog(log2)
             self.logs.append(log2)
         self.logger.resolve()
